@@ -38,6 +38,8 @@ def check(run):
     chain_end(sg, "CHAIN")
     lockstep(sg, "COUNT", E)
     tracker_operator(run, run.prog, sg.cls, "OPERATOR", "sage.operator")
+    from .explcore import defaults_resolution
+    defaults_resolution(run, run.prog, sg.cls, "OPERATOR", "defaults")
     getters(sg, "FORMULA")
 
     # the clauses C01 relies on are obligations of this check too: linear trackers, per-key copies, imputers
